@@ -856,6 +856,47 @@ fn main() {
             }
             println!("ok area assembly");
         }
+        "bounding_rect" => {
+            use geo::BoundingRect;
+            use geo_types::{Geometry, GeometryCollection, LineString, MultiPoint, Point, Polygon, Rect};
+            // every ordering of four coordinates whose extremes are all different coordinates
+            let pts = [(3i64, 0i64), (0, 2), (-4, 1), (1, -5)];
+            let want = Rect::new(c(-4, -5), c(3, 2));
+            for a in 0..4 {
+                for b in 0..4 {
+                    for d in 0..4 {
+                        for e in 0..4 {
+                            let idx = [a, b, d, e];
+                            if (0..4).any(|k| !idx.contains(&k)) {
+                                continue;
+                            }
+                            let ls: LineString<i64> = idx.iter().map(|&k| pts[k]).collect::<Vec<_>>().into();
+                            if ls.bounding_rect() != Some(want) {
+                                fail(format!("bounding_rect of {:?} = {:?}", ls.0, ls.bounding_rect()));
+                            }
+                        }
+                    }
+                }
+            }
+            let none: LineString<i64> = LineString::new(vec![]);
+            if none.bounding_rect().is_some() {
+                fail("bounding_rect of an empty line string".to_string());
+            }
+            // collection: members without a box are skipped wherever they stand, boxes are merged
+            let empty = || Geometry::MultiPoint(MultiPoint::<i64>(vec![]));
+            let tri = Geometry::Polygon(Polygon::new(vec![(0, 0), (5, 1), (2, 7), (0, 0)].into(), vec![]));
+            let far = Geometry::Point(Point::new(-3, 9));
+            for members in [vec![empty(), tri.clone(), far.clone()], vec![tri.clone(), empty(), far.clone()], vec![far.clone(), tri.clone(), empty()]] {
+                let gc = GeometryCollection(members);
+                if gc.bounding_rect() != Some(Rect::new(c(-3, 0), c(5, 9))) {
+                    fail(format!("collection bounding_rect = {:?}", gc.bounding_rect()));
+                }
+            }
+            if GeometryCollection(vec![empty(), empty()]).bounding_rect().is_some() || GeometryCollection::<i64>(vec![]).bounding_rect().is_some() {
+                fail("collection without coordinates has a bounding_rect".to_string());
+            }
+            println!("ok bounding rect");
+        }
         _ => {
             eprintln!("unknown op {op}");
             std::process::exit(4);
